@@ -340,7 +340,13 @@ class BayesianNetwork(DAG):
         for cpd in cpds:
             if not isinstance(cpd, (TabularCPD, ContinuousFactor)):
                 cpd = self.get_cpds(cpd)
-            self.cpds.remove(cpd)
+            # remove this very object; list.remove would match any *equal* factor
+            for index, prev_cpd in enumerate(self.cpds):
+                if prev_cpd is cpd:
+                    del self.cpds[index]
+                    break
+            else:
+                self.cpds.remove(cpd)
 
     def get_cardinality(self, node=None):
         """
